@@ -327,8 +327,18 @@ pub fn oracle_c09_c10(op: &str, outs: &[String], check_c09: bool, check_c10: boo
             Some(t) => t,
             None => continue,
         };
-        let before = snaps[..i].iter().rev().flatten().next().cloned();
-        let after = snaps[i..].iter().flatten().next().cloned();
+        let before_idx = snaps[..i].iter().rposition(|s| s.is_some());
+        // the snapshot describes the plan at the uplink only if nothing that can change the plan
+        // (a Class A downlink, a join, a new session) happened in between
+        let stale = match before_idx {
+            Some(bi) => evs[bi + 1..i].iter().any(|e| {
+                let k = e.split_whitespace().next().unwrap_or("");
+                matches!(k, "rx1" | "rx2" | "otaa" | "abp" | "sess" | "*rx1" | "*rx2")
+            }),
+            None => true,
+        };
+        let before = if stale { None } else { before_idx.and_then(|bi| snaps[bi].clone()) };
+        let _after = snaps[i..].iter().flatten().next().cloned();
         let is_join = w0 == "otaa";
         // data rate the region defines
         let dr_idx = table.iter().position(|d| *d == Some((tx.rf.sf, tx.rf.bw)));
@@ -362,7 +372,13 @@ pub fn oracle_c09_c10(op: &str, outs: &[String], check_c09: bool, check_c10: boo
                     b.chans.iter().enumerate().any(|(k, c)| c.is_some() && b.mask[k / 8] & (1 << (k % 8)) != 0)
                 }
             });
-            let judge = if usable_before == Some(true) { before.as_ref() } else { after.as_ref().or(before.as_ref()) };
+            // When the plan before the uplink offered no usable channel the device falls back:
+            // a fixed plan re-enables the channels of the needed bandwidth, a dynamic plan its
+            // default channels.  The mask after that step is not observable here (the next snapshot
+            // may come after a downlink that changed the mask again), so in that case only the
+            // fallback's own guarantee is required: right bandwidth (fixed) / a default channel (dynamic).
+            let fallback = usable_before == Some(false);
+            let judge = before.as_ref();
             if let Some(s) = judge {
                 if fixed {
                     let ch = (0..72).find(|&c| fixed_uplink(region, c) == tx.rf.freq);
@@ -378,8 +394,8 @@ pub fn oracle_c09_c10(op: &str, outs: &[String], check_c09: bool, check_c10: boo
                                 if Some((tx.rf.sf, tx.rf.bw)) != want {
                                     return format!("FAIL:join-on-channel-{}-with-sf{}-bw{}", c, tx.rf.sf, tx.rf.bw);
                                 }
-                            } else if s.jc.starts_with("0,") || s.jc.split(',').nth(2) == Some("-") {
-                                // no join bias in force: the data channel must be enabled in the mask
+                            } else if !fallback {
+                                // the data channel must be enabled in the mask (a join bias is only a preference)
                                 if s.mask[c / 8] & (1 << (c % 8)) == 0 {
                                     return format!("FAIL:data-uplink-on-disabled-channel-{}", c);
                                 }
@@ -394,6 +410,11 @@ pub fn oracle_c09_c10(op: &str, outs: &[String], check_c09: bool, check_c10: boo
                             if is_join {
                                 if ix >= num_default_channels(region) {
                                     return format!("FAIL:join-on-non-join-channel-{}", ix);
+                                }
+                            } else if fallback {
+                                let ok = s.chans.iter().take(num_default_channels(region)).any(|c| c.as_ref().map(|c| c.freq) == Some(tx.rf.freq));
+                                if !ok {
+                                    return format!("FAIL:fallback-uplink-on-non-default-channel-{}", ix);
                                 }
                             } else {
                                 // any defined+enabled slot with this frequency
